@@ -187,6 +187,10 @@ def run(ctx):
     # a seed that is a radical of an earlier seed, with rules that do not regenerate it from the parent
     combos.append((['CC', 'C[CH2]'], ['CC-scission']))
     combos.append((['C[CH2]', 'CC'], ['CC-scission']))
+    # a later seed that the network reaches from an earlier one
+    combos.append((['CC', 'C[CH2]'], ['CH-scission']))
+    combos.append((['CC', 'C=C'], ['CH-scission', 'C-C-to-C=C']))
+    combos.append((['CO', '[CH2]O', 'C[O]'], ['CH-scission', 'OH-scission']))
     combos.append((['C', '[CH3]'], ['ring:CC-scission']))
     combos.append((['CO', 'C[O]'], ['CC-scission', 'C=C-to-C-C']))
     combos.append((['C=C', '[CH]=C'], ['CC-scission']))
